@@ -32,7 +32,7 @@ PARTIAL = ["'due no more than one period ahead' is a theorem (firePosted_sched) 
 def _jobs(ctx):
     q = ctx.quick()
     return sc.corpus_job(ctx) + [(f'p{k}', ['pulse', 40 if q else 400]) for k in range(8 if q else 14)] + \
-        [('pc', ['pulse_complete', 40 if q else 400]), ('round', ['round', 300 if q else 5000])]
+        [('pc', ['pulse_complete', 40 if q else 400]), ('two', ['pulse2', 40 if q else 400]), ('round', ['round', 300 if q else 5000])]
 
 
 def _nt(e):
